@@ -23,7 +23,6 @@
 package net
 
 import (
-	"errors"
 	"io"
 	"net"
 	"sync"
@@ -34,7 +33,6 @@ import (
 type BrotliConnWrapper struct {
 	level      int
 	writerPool sync.Pool
-	readerPool sync.Pool
 }
 
 func NewBrotliConnWrapper(opts ...BrotliOption) *BrotliConnWrapper {
@@ -51,11 +49,6 @@ func NewBrotliConnWrapper(opts ...BrotliOption) *BrotliConnWrapper {
 			return brotli.NewWriterLevel(nil, w.level)
 		},
 	}
-	w.readerPool = sync.Pool{
-		New: func() any {
-			return brotli.NewReader(nil)
-		},
-	}
 	return w
 }
 
@@ -67,29 +60,17 @@ func (b *BrotliConnWrapper) Wrap(conn net.Conn) (net.Conn, error) {
 		return nil, ErrBrotliWriterInit
 	}
 
-	br, ok := b.readerPool.Get().(*brotli.Reader)
-	if !ok || br == nil {
-		b.writerPool.Put(bw)
-		return nil, ErrBrotliReaderInit
-	}
-
+	// The reader is NOT pooled: brotli.Reader.Reset keeps the reader's pending
+	// input (raw bytes already pulled from the previous source but not yet
+	// decoded, e.g. after a partial read of a large compressible stream), so a
+	// reused reader would decode bytes of its previous connection first.
+	br := brotli.NewReader(conn)
 	bw.Reset(conn)
-	if err := br.Reset(conn); err != nil {
-		bw.Reset(nil)
-		b.writerPool.Put(bw)
-		b.readerPool.Put(br)
-		return nil, err
-	}
 
 	closer := func() error {
 		closeErr := bw.Close()
 		bw.Reset(nil)
 		b.writerPool.Put(bw)
-		if err := br.Reset(nil); err != nil {
-			b.readerPool.Put(br)
-			return errors.Join(closeErr, err)
-		}
-		b.readerPool.Put(br)
 		return closeErr
 	}
 
